@@ -1,6 +1,11 @@
 package p2pke
 
-import "encoding/binary"
+import (
+	"encoding/binary"
+	"time"
+
+	"go.brendoncarroll.net/p2p"
+)
 
 // C02: the secure channel delivers only authentic peer plaintexts, at most once
 // (relative to the AEAD contract of the recording cipher stub).
@@ -115,3 +120,32 @@ func VH_C02_channelDeliversOnlyFromEstablished() bool { return vChannelStep() }
 
 // verif: replay=none unwind=130 cover=data-accepted,init-done-accepted bounds="handshake level (same step as C03): data only after authentication and the send counter never decreases, so no key/counter pair is ever reused; see VH_C03_handshakeStep for the state space"
 func VH_C02_noCounterReuseAcrossHandshake() bool { return vHandshakeStep() }
+
+// verif: replay=none time=concrete unwind=130 cover=sent bounds="Channel.Send on any invariant state with a current session, plaintext 0..2 symbolic bytes: exactly one transport write, equal to BE32(counter) || the AEAD output for exactly that plaintext (no plaintext on the transport), through the current session"
+func VH_C02_channelSendOnlyCiphertext() bool {
+	e := vChannel()
+	c := e.c
+	s1 := c.sessions[1].Session
+	vAssume(s1 != nil)
+	c.lastReceived = time.Now() // the current session is alive (keep-alive expiry is C07's subject)
+	pt := vBytes(2)
+	n0 := s1.nonce
+	err := c.Send(vCtxC{done: make(chan struct{})}, p2p.IOVec{vCloneB(pt)})
+	if err != nil {
+		return len(e.sent) == 0
+	}
+	vCover("sent")
+	vAssert(len(e.sent) == 1, "not-exactly-one-transport-write")
+	var enc *vCipherCall
+	for i := range vCipherLog {
+		if !vCipherLog[i].dec {
+			vAssert(enc == nil, "more-than-one-encryption")
+			enc = &vCipherLog[i]
+		}
+	}
+	vAssert(enc != nil && enc.id == s1.cipherOut.(vCipher).id, "not-encrypted-by-the-current-session")
+	vAssert(vEqBytes(enc.data, pt) && enc.n == n0, "encrypted-something-else-or-wrong-counter")
+	w := e.sent[0]
+	vAssert(len(w) == 4+len(pt)+16 && binary.BigEndian.Uint32(w[:4]) == uint32(n0) && vEqBytes(w[4:], enc.out), "transport-bytes-are-not-header-plus-ciphertext")
+	return true
+}
